@@ -715,6 +715,11 @@ def explore(ctx, tier, search=False):
     ctx.correspond("DAP4 proxy: stored slice and issued request", cases)
     # (d') DAP4 end to end against the reference DAP4 server, without and with URL pre-constraint
     explore_dap4_e2e(ctx, quick)
+    # (d'') end to end on VALUES: the composed model (Subset ∘ gather ∘ DDS ∘ XDR) vs the real pipeline, numpy oracle
+    import sys
+    from props import c02_e2e
+
+    c02_e2e.explore_e2e(ctx, sys.modules[__name__], quick)
     # (e) server-side projection tokens (name/hyperslab split, error classes)
     from pydap.parsers import parse_projection
 
@@ -744,7 +749,10 @@ def run(ctx):
                 "level (mocked GET) and end to end against the reference DAP4 server: rank 1 every index form without "
                 "pre-constraint (int32; float64/uint8/int16 on N = 4), every pre-constraint [a:s:b] inside the extent "
                 "(s ≤ 3) with sampled (quick) / all (thorough) forms, rank 1-3 sampled with leading-axis pre-constraints, "
-                "dtypes, both byte orders, named/anonymous dimensions. A case is non-trivial when its numpy selection is non-empty (others are outside the property and "
+                "dtypes, both byte orders, named/anonymous dimensions; end to end on VALUES (props/c02_e2e.py): 160 (quick) typed sources "
+                "over all 8 DAP2 types, rank 0-3, extents 1-5, C01's value generator, strided pre-constraints, arrays and grids with "
+                "typed maps — composed model vs the real pipeline, body bytes, parsed declaration, numpy oracle bit for bit; 300 "
+                "gather-vs-numpy cases rank 0-4. A case is non-trivial when its numpy selection is non-empty (others are outside the property and "
                 "skipped); distinct by (kind, shape, pre-constraint, index)")
     ctx.assumptions = ["numpy basic indexing is the oracle and the specification function (`sel`, `npSlices`: one "
                        "selection per axis)",
@@ -776,6 +784,11 @@ def replay(payload):
         Runner(ctx).array_case(shape, pre, eval(c["index"], g), "replay")
     elif c["kind"] == "grid":
         Runner(ctx).grid_case(shape, pre, eval(c["index"], g), c["output_grid"], "replay")
+    elif c["kind"] in ("e2e-array", "e2e-grid"):
+        import sys
+        from props import c02_e2e
+
+        c02_e2e.replay_case(ctx, sys.modules[__name__], c)
     elif c["kind"] == "dap4-open":
         Dap4E2E(ctx).client(shape, pre, c["dtype"], c["little"], c["anon"])
     elif c["kind"] == "dap4-e2e":
